@@ -23,3 +23,24 @@ pub broadcast proof fn lemma_trim_ascii(t: Seq<char>, s: Seq<char>)
     let (a, b) = choose|a: int, b: int| 0 <= a <= b <= s.len() && t == s.subrange(a, b);
     assert(forall|i: int| 0 <= i < t.len() ==> #[trigger] t[i] == s[a + i]);
 }
+/// t is s with ALL leading whitespace removed (and nothing else)
+pub open spec fn is_trim_start_of(t: Seq<char>, s: Seq<char>) -> bool {
+    t.len() <= s.len() && t == s.skip(s.len() - t.len()) && (forall|i: int| 0 <= i < s.len() - t.len() ==> ws_char(#[trigger] s[i]))
+        && (t.len() == 0 || !ws_char(t[0]))
+}
+pub assume_specification[ str::trim_start ](s: &str) -> (r: &str)
+    ensures is_trim_start_of(r@, s@);
+/// PROVED: what trim_start returns is determined by its argument (two calls on the same text give the same text)
+pub broadcast proof fn lemma_trim_start_unique(t1: Seq<char>, t2: Seq<char>, s: Seq<char>)
+    requires #[trigger] is_trim_start_of(t1, s), #[trigger] is_trim_start_of(t2, s)
+    ensures t1 == t2
+{
+    if t1.len() < t2.len() {
+        // the first character of t2 lies in the prefix that t1's side calls whitespace
+        assert(t2[0] == s[s.len() - t2.len()]);
+        assert(ws_char(s[s.len() - t2.len()]));
+    } else if t2.len() < t1.len() {
+        assert(t1[0] == s[s.len() - t1.len()]);
+        assert(ws_char(s[s.len() - t1.len()]));
+    }
+}
